@@ -80,6 +80,33 @@ def rejections(model, scope):
             if id(f) in validators:
                 out.setdefault(owner_construct(f), []).append(('%s[@%s]' % (exc, validators[id(f)]), n))
                 continue
+            # a checking helper (``cls._check(parser, 'field', parser['field'] == K)`` with ``if not is_valid: raise``): the condition
+            # is what each call hands in - one rejection per call site, keyed by what that call's argument reads
+            if cond is not None and f.cls is not None:
+                params = [a.arg for a in f.node.args.args]
+                names = {x.id for x in ast.walk(cond) if isinstance(x, ast.Name)}
+                own = [p_ for p_ in params if p_ in names and p_ not in ('self', 'cls')]
+                assigned = {t.id for d in ast.walk(f.node) if isinstance(d, ast.Assign) for t in d.targets if isinstance(t, ast.Name)}
+                if own and not (names - set(params)) and not (set(own) & assigned):
+                    sites = []
+                    for g in f.cls.methods.values():
+                        if g is f:
+                            continue
+                        for c_ in ast.walk(g.node):
+                            if isinstance(c_, ast.Call) and isinstance(c_.func, ast.Attribute) and c_.func.attr == f.name and \
+                                    isinstance(c_.func.value, ast.Name) and c_.func.value.id in ('cls', 'self', f.cls.name):
+                                sites.append((g, c_))
+                    if len(sites) >= 2:
+                        offset = 1 if params and params[0] in ('self', 'cls') else 0
+                        for g, c_ in sites:
+                            keys = set()
+                            for p_ in own:
+                                pos = params.index(p_) - offset
+                                arg = c_.args[pos] if 0 <= pos < len(c_.args) else next((k.value for k in c_.keywords if k.arg == p_), None)
+                                if arg is not None:
+                                    keys |= fields_read(arg, g)
+                            out.setdefault(owner_construct(f), []).append(('%s[%s]' % (exc, ','.join(sorted(keys))), n))
+                        continue
             binds = loop_bindings(model, f, n, parents) if cond is not None else [None]
             for bind in binds:
                 keys = fields_read(cond, f, bind) if cond is not None else set()
